@@ -104,11 +104,28 @@ def unary_laws(tier):
                         return K.key(x)
                     if K.key(got) != exp(c):
                         st.violation('clear/result', f'{T[i]}.clear_features{F} = {got}', a=T[i], b=list(F))
+                    else:
+                        twin = rebuild(got)       # an equal value built from scratch: must be interchangeable with the derived one
+                        if got != twin or hash(got) != hash(twin) or twin not in {got} or got not in {twin: 1}:
+                            st.violation('derived/hash', f'{T[i]}.clear_features{F} = {got} is not interchangeable with an equal value built from scratch (eq {got == twin}, hash equal {hash(got) == hash(twin)})',
+                                         a=T[i], b=list(F))
                     if K.key(c) != before:
                         st.violation('clear/mutates', f'clear_features{F} changed its argument {T[i]}', a=T[i], b=list(F))
                     if K.key(got.clear_features(*F)) != K.key(got):
                         st.violation('clear/idempotent', f'{T[i]}.clear_features{F} is not idempotent', a=T[i], b=list(F))
     st.count('feature_sets', len(feature_sets_seen))
+    # values derived by the rule functions (unification bindings, composed results) must behave as values too
+    from depccg.grammar import en, ja
+    from mc import pairs as PR
+    for lang, fn, inv in (('en', en.apply_binary_rules, PR.inventory('en')[:60 if tier == 'quick' else 200]), ('ja', ja.apply_binary_rules, PR.inventory('ja')[:60 if tier == 'quick' else 200])):
+        table = {c: k for k, c in enumerate(inv)}          # hashes every inventory value first
+        for x in inv:
+            for y in inv:
+                for r in fn(x, y):
+                    st.count('derived_values')
+                    twin = rebuild(r.cat)
+                    if r.cat != twin or hash(r.cat) != hash(twin) or twin not in {r.cat} or str(r.cat) != K.text(twin):
+                        st.violation('derived/rule_result', f'{lang}: result {r.cat} of ({x}, {y}) is not interchangeable with an equal value built from scratch', a=str(x), b=str(y))
     st.sample(dict(value=T[len(T) // 2], hash_equal=True))
     return st
 
